@@ -2,6 +2,7 @@ package props
 
 import (
 	"fmt"
+	"io"
 	"sort"
 	"strings"
 
@@ -193,6 +194,29 @@ func (g *cpuRig) loadPrim(s ref.State, stale bool, r *vf.Rng) {
 			c.RY = r.U16()&0xFF00 | uint16(c.RYl)
 		} else {
 			c.RXl, c.RYl = r.U8(), r.U8()
+		}
+	}
+}
+
+// observeFromHooks registers WDM callbacks that only look: they call the read-only methods of the CPU
+// they belong to (disassemble some other address, the current one, read the flags) while its Step is in
+// progress, as a debugger's hook does. Call after loadPrim/loadAltFromPrim.
+func (g *cpuRig) observeFromHooks() {
+	p, a := &g.prim, g.alt
+	p.OnWDM = func(b byte) {
+		at := uint16(b)*257 + 3
+		_ = p.DisassembleTo(at, nil)
+		_ = p.Flags()
+		if b&1 == 0 {
+			_ = p.DisassembleCurrentPC(nil)
+		}
+	}
+	a.OnWDM = func(b byte) {
+		at := uint16(b)*257 + 3
+		a.DisassembleTo(at, io.Discard)
+		_ = a.Flags()
+		if b&1 == 0 {
+			a.DisassembleCurrentPC(io.Discard)
 		}
 	}
 }
